@@ -279,16 +279,18 @@ def strip_comments(src):
 
 
 def lean_sources_for(pid):
-    """files whose text is grepped for banned constructs: Props, Model, Lemmas of that property + shared"""
-    out = []
-    for sub in ("Props", "Model", "Lemmas"):
-        d = os.path.join(LEAN, "WB", sub)
-        if not os.path.isdir(d):
+    """files whose text is grepped for banned constructs: WB/Props/<pid>.lean and every WB module it imports,
+    transitively (other properties' files, possibly mid-edit, are not this property's business)"""
+    seen, todo = [], [f"WB.Props.{pid}"]
+    while todo:
+        mod = todo.pop()
+        path = os.path.join(LEAN, *mod.split(".")) + ".lean"
+        if path in seen or not os.path.exists(path):
             continue
-        for fn in sorted(os.listdir(d)):
-            if fn.endswith(".lean"):
-                out.append(os.path.join(d, fn))
-    return out
+        seen.append(path)
+        for m in re.finditer(r"^\s*(?:public\s+)?import\s+(WB\.[A-Za-z0-9_.]+)", open(path).read(), flags=re.M):
+            todo.append(m.group(1))
+    return sorted(seen)
 
 
 def audit(pid, work, thorough=False):
